@@ -34,6 +34,8 @@ def placements():
     out.append(("enum-after", lambda t: {"main": [R(t), ENUM_X]}, False, None))
     out.append(("self", lambda t: {"main": [R(t, "R")]}, False, None))
     out.append(("undeclared", lambda t: {"main": [R(t)]}, False, None))
+    # a binding alias is not a type: 'impl can for X as Msg' must not make 'Msg' usable as a field type
+    out.append(("impl-alias-as-type", lambda t: {"main": [STRUCT_X, ("impl", "can", "X", "Msg", (("id", 1),), ()), ("struct", "R", (("pre", 0, U(8), None, None), ("r", 1, _rename(t, "Msg"), None, None)))]}, False, None))
     out.append(("case-differs", lambda t: {"main": [("struct", "x", STRUCT_X[2]), R(t)]}, False, None))
     out.append(("mod-struct-before", lambda t: {"main": [("mod", "m1"), R(t)], "m1": [STRUCT_X]}, True, "Struct"))
     out.append(("mod-enum-before", lambda t: {"main": [("mod", "m1"), R(t)], "m1": [ENUM_X]}, True, "Enum"))
@@ -179,7 +181,7 @@ def make_worker(tier):
                     continue
                 S.add("outcomes", "err")
                 msgs = "\n".join(m for m, _n, _w in res.err().msg)
-                tname = "R" if label == "self" else "X"
+                tname = "R" if label == "self" else "Msg" if label == "impl-alias-as-type" else "X"
                 if ("'%s'" % tname) not in msgs or "struct R" not in msgs:
                     S.violation("C08.message", "C08.message/error-does-not-name-type-and-struct/%s/%s" % (label, wl), inp, expected="message chain names type %s and struct R" % tname, actual=msgs)
             if len(S.samples) < 2:
